@@ -8,6 +8,7 @@ spec = {
   'shared_extra_args': {..} one caller-owned dict handed to EVERY transfer | transfers[i]['extra_args']: {..},
   'get_fault': {'range_idx': i, 'attempts': n, 'after': k bytes, 'exc': 'timeout'|'fatal'|'oserror',
                 'stall_range_idx': j (that range's body delivers nothing until every other thread is stuck)} | None,
+  'submit_fault': {'executor': 0 (request) | 2 (io), 'nth': n} (that executor's n-th submit raises RuntimeError),
   'track_get': bool (count the bytes handed out by GetObject bodies that are still referenced; C11),
   'fs_fault': {'op': 'open'|'write'|'close'|'rename', 'nth': i} | None,
   'read_fault': {'nth': i} | None,                 (source stream read raises)
@@ -32,6 +33,8 @@ def make_chooser(c):
         return core.PCTChooser(c.get('seed', 0), c.get('depth', 3), c.get('horizon', 300))
     if k == 'replay':
         return core.ReplayChooser(c.get('choices', []))
+    if k == 'phased':
+        return core.PhasedChooser(c['phases'], make_chooser(c.get('then')))
     return core.FirstChooser()
 
 
@@ -338,6 +341,7 @@ def _run(spec, scenario, cfgkw, fs_fault, cancel_at, cancel_how, keep_tmp, sampl
             f.__defaults__ = saved
     from harness.sched import instr as _instr
     core.SUBMIT_YIELD[0] = bool(spec.get('submit_yield'))
+    core.SUBMIT_FAULT[0] = spec.get('submit_fault')
     _instr.PIN_TRACKING[0] = bool(sample)
     _instr.STATE_WRITE_YIELD[0] = bool(spec.get('state_write_yield'))
     scen.PROGRESS_YIELD[0] = bool(spec.get('progress_yield'))
